@@ -43,11 +43,13 @@ Has(r, f) == f \in DOMAIN r
 
 \* C07: total.  An outcome other than ok / parse_error (panic, error, crash, timeout) is a failure;
 \* ok exactly when the input parses (decided by an independent parse of the input).
-CpuBoundMs(len) == 20000
+\* observation bound, not a specification property: thread CPU time proportional to the input size
+\* (2 s + 2 ms per input byte; the corpus stays below 5% of it, a 2^depth heuristic crosses it at depth ~ 20)
+CpuBoundMs(len) == 2000 + 2 * len
 Total(d, f) ==
   /\ f.outcome \in {"ok", "parse_error"}
   /\ (f.outcome = "ok") <=> (f.in_parse = "ok")
-  /\ (f.len <= 8192 => f.cpu_ms <= CpuBoundMs(f.len))
+  /\ f.cpu_ms <= CpuBoundMs(f.len)
 
 \* C01: the output parses again
 Valid(r) == r.ok
